@@ -49,6 +49,7 @@ class DC:
         self.conns: t.List["Conn"] = []
         # fault / deviation knobs
         self.epm_stub: t.Optional[bytes] = None  # replaces the ept_map reply stub
+        self.epm_teardown = False  # the endpoint mapper closes its end right after the ept_map reply (the client's shutdown() then meets ENOTCONN)
         self.epm_towers: t.Optional[t.List[t.List[epm.Floor]]] = None
         self.epm_status = 0
         self.tamper: t.Optional[t.Callable[["Conn", bytes, dict], bytes]] = None
@@ -262,6 +263,8 @@ class Conn:
                 towers = [epm.tcpip_tower(rpc.ISD_KEY, rpc.NDR, self.dc.isd_port, 0xC0A83865)]
             stub = epm.ept_map_response(towers, self.dc.epm_status)
         self.log(dir="s2c", what="ept_map_reply", stub=stub)
+        if self.dc.epm_teardown:
+            self.torn_down = True
         hint = {"padded": len(stub), "unpadded": len(stub), "zero": 0, "16": len(stub), "max": len(stub) + 100}[self.dc.reply_alloc_hint]
         return rpc.enc_response(d["call_id"], d["ctx_id"], stub, alloc_hint=hint)
 
